@@ -36,7 +36,7 @@ def main():
         if a.demo:
             for label, tree in (("clean", "/repo"), ("patched", str(wt))):
                 d = subprocess.run(["/venv/bin/python", os.path.abspath(a.demo)], cwd=tree, capture_output=True, text=True,
-                                   env=dict(os.environ, PYTHONWARNINGS="ignore"), timeout=1200)
+                                   env=dict(os.environ, PYTHONWARNINGS="ignore", PYTHONPATH=tree), timeout=1200)
                 print(f"demo on {label}: rc={d.returncode} {(d.stdout + d.stderr).strip().splitlines()[-1:]}" )
         if a.baseline_tests:
             t = subprocess.run(["/venv/bin/python", "-m", "pytest", "-q", "-p", "no:cacheprovider", "--timeout=900",
